@@ -204,6 +204,7 @@ func C02(ctx *core.Ctx) {
 	c02KindIndependence(ctx, cc)
 	ctx.Rule("C02.R9", "typedef resolution across includes: the aliased type of a typedef is resolved by the program whose index the alias was found in", 1)
 	typedefResolverAgreement(ctx, cc, "C02.R9")
+	scalarClassification(ctx, cc, "C02.R11")
 
 	var gpkg, ppkg *packages.Package
 	for _, p := range cc.V.Pkgs {
@@ -439,6 +440,29 @@ func C02(ctx *core.Ctx) {
 						}
 					}
 				})
+				// … possibly inside a helper that is handed the type and asks for its IncludeName() there
+				if !selected {
+					ssax.Instrs(fn, func(in ssa.Instruction) {
+						c, isC := in.(*ssa.Call)
+						if !isC || selected {
+							return
+						}
+						g := c.Call.StaticCallee()
+						if g == nil || g.Pkg != fn.Pkg || len(g.Blocks) == 0 || !dependsOn(lk.X, c, 0) {
+							return
+						}
+						for i, a := range c.Call.Args {
+							if ssax.Strip(a) != typ || i >= len(g.Params) {
+								continue
+							}
+							for _, c2 := range ssax.Calls(g) {
+								if c2.ShortName() == "IncludeName" && len(c2.Common.Args) > 0 && ssax.Strip(c2.Common.Args[0]) == ssa.Value(g.Params[i]) {
+									selected = true
+								}
+							}
+						}
+					})
+				}
 				if selected {
 					ctx.Discharge("C02.R6", construct, cc.IPos(lk), "the map consulted is chosen from the type's IncludeName()")
 					continue
